@@ -2264,6 +2264,22 @@ class unyt_array(np.ndarray):
             out.units = ret.units
         return ret
 
+    def put(self, indices, values, mode="raise"):
+        """method
+
+        Set ``a.flat[n] = values[n]`` for all `n` in indices.
+
+        Refer to :func:`numpy.put` for full documentation.
+
+        See also
+        --------
+        numpy.put : equivalent function
+        """
+        from ._array_functions import _validate_units_consistency_v2
+
+        _validate_units_consistency_v2(self.units, values)
+        super().put(indices, np.asarray(values), mode=mode)
+
     def take(self, indices, axis=None, out=None, mode="raise"):
         """method
 
